@@ -19,6 +19,7 @@ const NTYPES: u64 = 9;
 const TYPE_NAMES: [&str; 9] = ["SectionHeader", "ProgramHeader", "Symbol", "Dyn", "VersionIndex", "u32", "u64", "Rel", "Rela"];
 
 fn setup(ctx: &mut Ctx) {
+    ctx.floor("user-entry-type-tables", 1000);
     #[cfg(all(target_pointer_width = "64", not(miri)))]
     ctx.floor("entries-at-byte-offsets>=2^32", 100);
     ctx.floor("clone-checked", 1000);
@@ -361,6 +362,60 @@ fn via_parsers(ctx: &mut Ctx) {
     }
 }
 
+/// An entry type written by a user of the crate (`ParseAt` is public): 3 bytes in ELF32 files, 5 in ELF64 files, and it
+/// remembers the cursor it was handed. However the table or iterator is driven, item i is the entry at byte i*size.
+#[derive(Clone, Debug, PartialEq, Eq)]
+struct UserEntry {
+    at: usize,
+    bytes: Vec<u8>,
+}
+
+impl ParseAt for UserEntry {
+    fn parse_at<E: EndianParse>(endian: E, class: Class, offset: &mut usize, data: &[u8]) -> Result<Self, elf::parse::ParseError> {
+        let at = *offset;
+        let mut bytes = Vec::new();
+        for _ in 0..Self::size_for(class) {
+            bytes.push(endian.parse_u8_at(offset, data)?);
+        }
+        Ok(UserEntry { at, bytes })
+    }
+    fn size_for(class: Class) -> usize {
+        match class {
+            Class::ELF32 => 3,
+            Class::ELF64 => 5,
+        }
+    }
+}
+
+fn user_entry_tables(ctx: &mut Ctx) {
+    let class = if ctx.rng.bool() { Class::ELF32 } else { Class::ELF64 };
+    let es = UserEntry::size_for(class);
+    let n = ctx.rng.usize_below(9);
+    let tail = ctx.rng.usize_below(es);
+    let data = ctx.rng.bytes(n * es + tail);
+    let want: Vec<UserEntry> = (0..n).map(|i| UserEntry { at: i * es, bytes: data[i * es..(i + 1) * es].to_vec() }).collect();
+    ctx.count("user-entry-type-tables");
+    let t = ParsingTable::<LittleEndian, UserEntry>::new(LittleEndian, class, &data);
+    let by_get: Vec<UserEntry> = (0..t.len()).filter_map(|i| t.get(i).ok()).collect();
+    let k = ctx.rng.usize_below(n + 1);
+    let runs: Vec<(&str, Vec<UserEntry>, Vec<UserEntry>)> = vec![
+        ("get", by_get, want.clone()),
+        ("iter", t.iter().take(n + 2).collect(), want.clone()),
+        ("into_iter", ParsingTable::<LittleEndian, UserEntry>::new(LittleEndian, class, &data).into_iter().take(n + 2).collect(), want.clone()),
+        ("ParsingIterator", ParsingIterator::<LittleEndian, UserEntry>::new(LittleEndian, class, &data).take(n + 2).collect(), want.clone()),
+        ("iter.skip", t.iter().skip(k).take(n + 2).collect(), want[k..].to_vec()),
+        ("iter.step_by(2)", t.iter().step_by(2).take(n + 2).collect(), want.iter().step_by(2).cloned().collect()),
+    ];
+    for (mode, got, exp) in runs {
+        ctx.eval();
+        if got != exp || t.len() != n {
+            ctx.set_input(&data);
+            ctx.violation(&format!("user-entry-type:{mode}"), format!("table of {n} user-defined {es}-byte entries (+{tail} trailing bytes) read by {mode}: got {:?}, expected {:?} (len() = {})", got.iter().map(|e| e.at).collect::<Vec<_>>(), exp.iter().map(|e| e.at).collect::<Vec<_>>(), t.len()));
+            return;
+        }
+    }
+}
+
 fn huge_table<P: ParseAt + Fields>(ctx: &mut Ctx, enc: Enc, buf: &mut [u8]) {
     use super::util::entries_mismatch;
     let es = size_of(P::ST, enc.c64);
@@ -438,6 +493,10 @@ fn run(ctx: &mut Ctx, si: usize, case: u64) {
             }
         }
         _ => {
+            if ctx.rng.chance(1, 8) {
+                user_entry_tables(ctx);
+                return;
+            }
             let ty = ctx.rng.below(NTYPES);
             let enc = Enc::ALL[ctx.rng.usize_below(4)];
             let es = entsize_of(ty, enc);
